@@ -324,24 +324,33 @@ def _bounded_race_stage(ctx):
 
     from .. import detsched as D
 
-    if ctx.shard % 2 == 1 and ctx.nshards > 1:
-        return
-    kinds = ["ok", "ok", "ok"] if ctx.shard % 4 == 0 else ["fail", "fail", "fail"]
-    comp = {"min": 2, "tol": 3, "pct": None} if kinds[0] == "ok" else {"min": None, "tol": 1, "pct": None}
-    branches, truth = [], []
-    for i, k in enumerate(kinds):
-        if k == "ok":
-            branches.append([{"op": "step", "beh": {"kind": "ret", "v": i}, "sem": "least", "retry": {"kind": "none"}}])
-            truth.append(("ok", i))
-        else:
-            branches.append([{"op": "step", "beh": {"kind": "always_fail", "err": "UserError", "msg": f"err-{i}"}, "sem": "least", "retry": {"kind": "none"}}])
-            truth.append(("fail", f"err-{i}"))
-    base = {"prog": {"body": [{"op": "parallel", "branches": branches, "cfg": {"max_concurrency": None, "completion": comp}}]},
-            "c09": {"path": "root/0", "n": 3, "eff": norm_cfg(comp), "truth": truth, "mc": None, "kinds": kinds, "is_map": False},
-            "backend": {"response": "delta"}, "plan": {"crashes": []}, "line": ["executor", "models"]}
-    WC.line_preempt_sweep(ctx, base, PROPS, nontrivial=nontrivial, classes=lambda r_, c_: ["one-long-preemption-at-a-line"], extra_monitors=(mon_c09,),
-                          limit=ctx.budget.get("bounded_runs", 600),
-                          label=f"one long preemption at each executed line of executor/models, parallel {kinds} {_json.dumps(comp)}")
+    configs = [
+        (["ok", "ok", "ok"], {"min": 2, "tol": 3, "pct": None}),
+        (["fail", "suspend", "ok"], {"min": None, "tol": 0, "pct": 0}),   # a failure decides while another branch suspends
+        (["fail", "fail", "fail"], {"min": None, "tol": 1, "pct": None}),
+        (["ok", "suspend", "fail"], {"min": 1, "tol": 3, "pct": None}),   # a success decides while another branch suspends
+    ]
+    for ci, (kinds, comp) in enumerate(configs):
+        if ctx.nshards > 1 and ci % ctx.nshards != ctx.shard % ctx.nshards:
+            continue
+        branches, truth = [], []
+        for i, k in enumerate(kinds):
+            if k == "ok":
+                branches.append([{"op": "step", "beh": {"kind": "ret", "v": i}, "sem": "least", "retry": {"kind": "none"}}])
+                truth.append(("ok", i))
+            elif k == "suspend":
+                branches.append([{"op": "wait", "secs": 3}, {"op": "step", "beh": {"kind": "ret", "v": i}, "sem": "least", "retry": {"kind": "none"}}])
+                truth.append(("suspend", i))
+            else:
+                branches.append([{"op": "step", "beh": {"kind": "always_fail", "err": "UserError", "msg": f"err-{i}"}, "sem": "least", "retry": {"kind": "none"}}])
+                truth.append(("fail", f"err-{i}"))
+        base = {"prog": {"body": [{"op": "parallel", "branches": branches, "cfg": {"max_concurrency": None, "completion": comp}}, {"op": "wait", "secs": 1}]},
+                "c09": {"path": "root/0", "n": 3, "eff": norm_cfg(comp), "truth": truth, "mc": None, "kinds": kinds, "is_map": False},
+                "backend": {"response": "delta"}, "plan": {"crashes": []}, "line": ["executor", "models"]}
+        for order in (("low", "high") if "suspend" in kinds else ("low",)):
+            WC.line_preempt_sweep(ctx, base, PROPS, nontrivial=nontrivial, classes=lambda r_, c_: ["one-long-preemption-at-a-line"], extra_monitors=(mon_c09,),
+                                  limit=ctx.budget.get("bounded_runs", 600), order=order,
+                                  label=f"one long preemption at each executed line of executor/models ({order}), parallel {kinds} {_json.dumps(comp)}")
 
 
 # --------------------------------------------------------------------------- pure half: counters vs classifier
